@@ -75,6 +75,7 @@ WaitOf(w, attempts) ==     \* what the strategy object returns for its `attempts
 RetryNext(s, elapsed, failures, exc) ==
   LET rp == SC(s).retry IN
   IF rp.kind = "none" THEN -1
+  ELSE IF rp.kind = "raising" THEN -1            \* a policy whose next() raises: logged, treated as "do not retry"
   ELSE IF rp.retry_on # <<"*">> /\ exc \notin Range(rp.retry_on) THEN -1
   ELSE LET delay == WaitOf(rp.wait, IF Dev_WaitIndexOneBased THEN failures ELSE failures - 1)
            stop  == \/ (rp.max # -1 /\ failures >= rp.max)
